@@ -352,8 +352,16 @@ func (w *objectWalk) processCommitTrees(lc *object.Commit) error {
 		return fmt.Errorf("getting tree for %s: %w", lc.Hash, err)
 	}
 
+	// A shallow commit is a history boundary: like Git's grafts, treat it
+	// as parentless, so its whole tree is collected even when a parent
+	// happens to be present in the store.
+	numParents := lc.NumParents()
+	if _, shallow := w.shallows[lc.Hash]; shallow {
+		numParents = 0
+	}
+
 	var oldTrees []*object.Tree
-	for i := 0; i < lc.NumParents(); i++ {
+	for i := 0; i < numParents; i++ {
 		parent, err := lc.Parent(i)
 		if err != nil {
 			if errors.Is(err, plumbing.ErrObjectNotFound) {
